@@ -351,7 +351,10 @@ def run_history(case, ctx):
           v = "ERR:%s" % type(e).__name__
         nev += 1
         ctx.count("evaluations_compared")
-        if v != want_eval[(mi, tag, r)]:
+        w_ = want_eval[(mi, tag, r)]
+        # a failed evaluation is compared as "failed": WHICH exception surfaces when two sub-calls of one formula both fail
+        # depends on exprtk's evaluation order of commutative operands, which differs between processes
+        if (v != w_) and not (str(v).startswith("ERR") and str(w_).startswith("ERR")):
           ctx.violation("evaluation_differs", "model %d %s(%r) = %s in this history, fresh process gives %s" % (mi, tag, r, v, want_eval[(mi, tag, r)]), what="evaluation_differs")
           return
   except Exception as e:
